@@ -6,7 +6,7 @@ Import ListNotations.
 (* operation codes of harness/C17_sched.py (OPS) *)
 Definition op_of_mpc (pc : mpc) : nat :=
   match pc with
-  | MPlayAcq _ _ | MCtlAcq _ _ | MCloseAcqH | MCloseLoopAcq => 0
+  | MPlayAcq _ _ _ | MCtlAcq _ _ | MCloseAcqH | MCloseLoopAcq => 0
   | MPlayRaiseRel | MPlayRel | MCtlRel _ _ | MCloseRelH2 | MCloseBreakRel | MCloseLoopRel _
   | MCloseRelH | MCloseRelHFail => 1
   | MPlayGoSet _ | MResumeSet _ _ | MStopSet _ _ => 2
@@ -37,15 +37,25 @@ Definition op_of_ppc (pc : ppc) : nat :=
   | PEpiClose => 16
   | PNew | PDone => 99
   end.
+(* a player with source accesses left performs next() on its audio source (op 22) first *)
+Definition op_of_player (p : player) : nat :=
+  match pfill p with O => op_of_ppc (ppc_ p) | S _ => 22 end.
 Definition op_of (s : state) (tid : nat) : nat :=
   match tid with
   | O => op_of_mpc (smpc s)
-  | S i => match get_player s i with Some p => op_of_ppc (ppc_ p) | None => 99 end
+  | S i => match get_player s i with Some p => op_of_player p | None => 99 end
   end.
 
 Record fplayer := FP { f_status : nat;   (* 0 constructed, 1 running, 2 finished *)
                        f_halting : bool; f_go : bool; f_tlock : bool; f_open : bool;
-                       f_written : list chunk }.
+                       f_written : list chunk;
+                       (* per write: the frame count announced and the buffer length in bytes *)
+                       f_nframes : list nat; f_nbytes : list nat;
+                       (* open(): format constant, channels, rate / 100, frames_per_buffer *)
+                       f_openkw : nat * nat * nat * nat }.
+(* what the play call asked for: chunk_size, channels, sample width in bytes, PyAudio format
+   constant, rate / 100 *)
+Record pparams := PP { pp_chunk : nat; pp_channels : nat; pp_width : nat; pp_format : nat; pp_rate : nat }.
 Record final := FS { f_players : list fplayer; f_finished : bool; f_hlock : bool; f_mlock : bool;
                      f_threads : list nat; f_started : list nat; f_terminated : nat;
                      f_pending : list nat  (* per started thread: op code, 99 = none *) }.
@@ -53,7 +63,8 @@ Record scase := SC { c_wait : bool; c_script : list cmd;
                      c_steps : list (nat * nat * list nat);   (* chosen tid, its op, enabled set *)
                      c_status : nat;    (* 0 completed, 1 deadlock, 3 anything else (hang, ...) *)
                      c_events : list event;     (* chronological *)
-                     c_final : final }.
+                     c_final : final;
+                     c_params : list pparams }.   (* one per player, in order of creation *)
 
 Definition nats_eqb := list_eqb Nat.eqb.
 Definition is_some {A} (o : option A) : bool := match o with Some _ => true | None => false end.
@@ -69,11 +80,12 @@ Fixpoint replay (s : state) (steps : list (nat * nat * list nat)) : bool * state
 
 Definition status_of_pc (pc : ppc) : nat := match pc with PNew => 0 | PDone => 2 | _ => 1 end.
 Definition final_of (s : state) : final :=
-  FS (map (fun p => FP (status_of_pc (ppc_ p)) (phalting p) (pgo p) (is_some (ptlock p)) (popen p) (pwritten p))
+  FS (map (fun p => FP (status_of_pc (ppc_ p)) (phalting p) (pgo p) (is_some (ptlock p)) (popen p) (pwritten p)
+                       [] [] (0, 0, 0, 0))
           (splayers s))
      (sfinished s) (is_some (shlock s)) (is_some (smlock s)) (sthreads s) (sstarted s) (sterminated s)
      (op_of_mpc (smpc s) ::
-      map (fun p => op_of_ppc (ppc_ p)) (filter (fun p => negb (Nat.eqb (status_of_pc (ppc_ p)) 0)) (splayers s))).
+      map op_of_player (filter (fun p => negb (Nat.eqb (status_of_pc (ppc_ p)) 0)) (splayers s))).
 
 Definition fplayer_eqb (a b : fplayer) : bool :=
   Nat.eqb (f_status a) (f_status b) && Bool.eqb (f_halting a) (f_halting b) && Bool.eqb (f_go a) (f_go b)
@@ -124,6 +136,26 @@ Fixpoint players_ok (evs : list event) (i : nat) (fps : list fplayer) (exp : lis
   | fp :: fr, a :: er => player_ok evs i fp a && players_ok evs (S i) fr er
   | _, _ => false
   end.
+(* "chunks of exactly chunk_size frames": every write announces chunk_size frames and carries
+   chunk_size * channels * width bytes, on a stream opened with the format, channel count, rate and
+   buffer size that the play call asked for *)
+Definition io_ok (pp : pparams) (fp : fplayer) : bool :=
+  forallb (Nat.eqb (pp_chunk pp)) (f_nframes fp)
+  && forallb (Nat.eqb (pp_chunk pp * pp_channels pp * pp_width pp)) (f_nbytes fp)
+  && Nat.eqb (length (f_nframes fp)) (length (f_written fp))
+  && forallb (fun c => Nat.eqb (length c) (pp_chunk pp * pp_channels pp)) (f_written fp)
+  && match f_openkw fp with
+     | (fmt, ch, rate, fpb) =>
+         Nat.eqb fmt (pp_format pp) && Nat.eqb ch (pp_channels pp) && Nat.eqb rate (pp_rate pp)
+         && Nat.eqb fpb (pp_chunk pp)
+     end.
+Fixpoint all_io_ok (pps : list pparams) (fps : list fplayer) : bool :=
+  match pps, fps with
+  | [], [] => true
+  | pp :: pr, fp :: fr => io_ok pp fp && all_io_ok pr fr
+  | _, _ => false
+  end.
+
 Definition final_closed (f : final) : bool :=
   f_finished f && forallb (fun p => negb (f_open p) && Nat.eqb (f_status p) 2) (f_players f)
   && nats_eqb (f_threads f) [] && Nat.eqb (f_terminated f) 1.
@@ -143,6 +175,7 @@ Definition holds_sched (c : scase) : bool :=
   && Nat.eqb (count_ev is_play_raise evs) (expected_raises (c_script c))
   && close_ok (c_wait c) (c_script c) exp evs && nobody_alive evs
   && halt_prompt (length exp) evs
+  && all_io_ok (c_params c) (f_players f)
   && (if has_close (c_script c) then final_closed f else true)
   && locks_free f.
 
